@@ -243,14 +243,15 @@ func WorkerMain(t *testing.T) {
 				os.WriteFile(fmt.Sprintf("/dev/shm/verif-det-%s-%d-a.log", prop, seed), []byte(strings.Join(r.Lines, "\n")+"\n"), 0o644)
 				os.WriteFile(fmt.Sprintf("/dev/shm/verif-det-%s-%d-b.log", prop, seed), []byte(strings.Join(r2.Lines, "\n")+"\n"), 0o644)
 				first := ""
-				for i := 0; i < len(r.Lines) && i < len(r2.Lines); i++ {
-					if r.Lines[i] != r2.Lines[i] {
-						first = fmt.Sprintf(" first difference at line %d: %q vs %q", i+1, r.Lines[i], r2.Lines[i])
+				la, lb := canonicalLines(r.Lines), canonicalLines(r2.Lines)
+				for i := 0; i < len(la) && i < len(lb); i++ {
+					if la[i] != lb[i] {
+						first = fmt.Sprintf(" first difference at line %d: %q vs %q", i+1, la[i], lb[i])
 						break
 					}
 				}
 				if first == "" {
-					first = fmt.Sprintf(" (one trace is a prefix of the other: %d vs %d lines)", len(r.Lines), len(r2.Lines))
+					first = fmt.Sprintf(" (one trace is a prefix of the other: %d vs %d lines)", len(la), len(lb))
 				}
 				res.DetFailures = append(res.DetFailures, fmt.Sprintf("seed=%d idx=%d: %x vs %x;%s", seed, idx, r.LogHash, r2.LogHash, first))
 			}
@@ -358,4 +359,15 @@ func rssBytes() uint64 {
 	}
 	n, _ := strconv.ParseUint(f[1], 10, 64)
 	return n * uint64(os.Getpagesize())
+}
+
+// canonicalLines drops the trace-only notes (Ctx.Note), which are not part of the canonical log.
+func canonicalLines(lines []string) []string {
+	out := make([]string, 0, len(lines))
+	for _, l := range lines {
+		if !strings.HasPrefix(l, "    # ") {
+			out = append(out, l)
+		}
+	}
+	return out
 }
